@@ -628,6 +628,9 @@ class Manager:
 
             self._cache[(event.name, channels)] = event_handlers
 
+        # (re-entrant dispatch, e.g. a handler that flushes, must give the
+        # event being handled back to the handlers that follow)
+        handling = self._currently_handling
         if isinstance(event, generate_events):
             with self._lock:
                 self._currently_handling = event
@@ -677,7 +680,7 @@ class Manager:
             if event.stopped:
                 break  # Stop further event processing
 
-        self._currently_handling = None
+        self._currently_handling = handling
         self._eventDone(event, err)
 
     def _eventDone(self, event, err=None):
@@ -790,6 +793,9 @@ class Manager:
         # TODO: Refactor this method.
 
         value = None
+        # events fired while the generator runs are caused by this event
+        handling = self._currently_handling
+        self._currently_handling = event
         try:
             value = next(task)
             if isinstance(value, CallValue):
@@ -846,6 +852,7 @@ class Manager:
             elif value is not None:
                 event.value.value = value
         except StopIteration:
+            self._currently_handling = handling
             event.waitingHandlers -= 1
             self.unregisterTask((event, task, parent))
 
@@ -863,6 +870,7 @@ class Manager:
         except SystemExit as e:
             self.stop(e.code)
         except BaseException:
+            self._currently_handling = handling
             self.unregisterTask((event, task, parent))
 
             err = _exc_info()
@@ -881,6 +889,8 @@ class Manager:
             event.waitingHandlers -= 2 if parent else 1
             if event.waitingHandlers == 0:
                 self._eventDone(event, err)
+        finally:
+            self._currently_handling = handling
 
     def tick(self, timeout=-1):
         """
